@@ -80,7 +80,9 @@ func genC09(seed uint64, tier string) *plan.Plan {
 	for i := 0; i < n; i++ {
 		switch r.IntN(9) {
 		case 0:
-			pl.Ops = append(pl.Ops, plan.Op{K: "dataunk", A: int64(7 + r.IntN(50))})
+			// a small pool of never-announced ids, so that the same unknown id is tried repeatedly,
+			// with the shape of a known template (B) or a 1-field record (B = -1)
+			pl.Ops = append(pl.Ops, plan.Op{K: "dataunk", A: int64(7 + r.IntN(2)), B: int64(r.IntN(4) - 1), C: int64(r.Uint64() >> 1)})
 		case 1:
 			op := valid()
 			d := int64(1 + r.IntN(2))
